@@ -250,7 +250,7 @@ pub fn escape_ctx(s: &str, ent: Entity, quote: Option<char>, out: &mut String) {
 pub fn header_attrs(version: AutosarVersion) -> String {
     format!(
         "xsi:schemaLocation=\"http://autosar.org/schema/r4.0 {}\" xmlns=\"http://autosar.org/schema/r4.0\" xmlns:xsi=\"http://www.w3.org/2001/XMLSchema-instance\"",
-        version.filename()
+        super::specgraph::xsd_name(version)
     )
 }
 
